@@ -158,7 +158,7 @@ def runProbe (b : Block) : Res :=
   let pt := ((field b "passthru").getD []).headD "skip"
   let pp := if pt = "changed" ∨ pt = "panic" then some s!"built_function_over_one_shared_value_set_{pt}_the_values_passed_through" else none
   { conform := none, propNA := true,
-    props := [("C02", verdictStr ps), ("C03", verdictStr ps), ("C05", verdictStr ps), ("C16", verdictStr ps), ("C15", verdictStr pp), ("C09", verdictStr (ps.or pb)), ("C06", verdictStr (if bare = "panic" ∨ sib = "panic" then some "probe_panicked" else none))],
+    props := [("C02", verdictStr ps), ("C03", verdictStr ps), ("C05", verdictStr ps), ("C16", verdictStr ps), ("C15", verdictStr (pp.or ps)), ("C13", verdictStr ps), ("C01", verdictStr ps), ("C09", verdictStr (ps.or pb)), ("C06", verdictStr (if bare = "panic" ∨ sib = "panic" then some "probe_panicked" else none))],
     stats := ["execs=1", "outcome=ok", "size=1"] }
 
 /-- `alias` blocks: after calling a redefined function, is the caller's option slice (spare capacity
